@@ -22,7 +22,8 @@ def node_header(rec, nid):
     nin = len(n.in_edges) if n.in_edges else 0
     nout = len(n.out_edges) if n.out_edges else 0
     if kind == "source":
-        return f"new source {nid} {int(cfg.get('blocking', True))} {pol_str(cfg.get('out', 'FIRST_AVAILABLE'))} {nout}"
+        return (f"new source {nid} {int(cfg.get('blocking', True))} {pol_str(cfg.get('out', 'FIRST_AVAILABLE'))} {nout}"
+                + (f" {cfg['setup']}" if cfg.get("setup") else ""))
     if kind == "sink":
         return f"new sink {nin}"
     if kind == "machine":
@@ -142,7 +143,10 @@ def gen_factory(rng):
         blocking = rng.random() < 0.6
         iat = [rng.choice([1, 1, 2, 3, 5]) for _ in range(rng.randrange(1, 4))]
         if blocking and rng.random() < 0.15: iat = [0] + iat
-        return N(dict(kind="source", iat=iat, blocking=blocking, out=rand_policy(rng, nout)))
+        d = dict(kind="source", iat=iat, blocking=blocking, out=rand_policy(rng, nout))
+        # the constructor of Source does not take node_setup_time; one source in six gets it assigned before the run (an inherited attribute)
+        if rng.random() < 1 / 6: d["setup"] = rng.choice([1, 2, 3])
+        return N(d)
     def machine(nin, nout):
         inp, out = rand_policy(rng, nin), rand_policy(rng, nout)
         if rng.random() < 0.15:          # the same library policy on both sides (two selector objects of one node)
